@@ -11,7 +11,7 @@ the reported ones, then `git -C /repo checkout -- .`.  Results: selftest/REVERTS
 """
 import os, sys, json, subprocess, tempfile, shutil, time, re
 V = os.path.dirname(os.path.dirname(os.path.abspath(__file__)))
-REPO = '/tmp/mmd6-wt-reverts'          # scratch worktree of /repo (removed at the end); checks are pointed at it through VERIF_REPO
+REPO = '/tmp/mmd6-wt-reverts-%d' % os.getpid()          # scratch worktree of /repo (removed at the end); checks are pointed at it through VERIF_REPO
 OUTD = os.path.join(V, 'selftest')
 
 
